@@ -36,6 +36,7 @@ pub uninterp spec fn num16_of(s: Seq<char>) -> Option<u16>;
 pub uninterp spec fn rtype_of_text(s: Seq<char>) -> Option<RecordType>;
 pub uninterp spec fn v4_of_text(s: Seq<char>) -> Option<Ipv4Addr>;
 pub uninterp spec fn v6_of_text(s: Seq<char>) -> Option<Ipv6Addr>;
+#[derive(Debug)]
 pub struct ParseIntError { e: u8 }
 #[verifier::external_body]
 fn shim_u16_from_str(s: &str) -> (r: Result<u16, ParseIntError>) ensures r is Ok <==> num16_of(s@) is Some, r is Ok ==> r->Ok_0 == num16_of(s@)->Some_0 { unimplemented!() }
@@ -187,7 +188,8 @@ spec fn rr_den(origin: Option<DomainName>, po: Option<MaybeWildcard>, pt: Option
 spec fn opt_mw(o: Option<&MaybeWildcard>) -> Option<MaybeWildcard> { match o { Some(n) => Some(*n), None => None } }
 """
 
-TOK_RW = [("R48", r"&tokens\[(\d)\.\.\]", r"shim_tail(&tokens, \1)"),
+TOK_RW = [("R2", r"u32::from_str\(", "shim_u32_from_str("), ("R2", r"u16::from_str\(", "shim_u16_from_str("),
+          ("R48", r"&tokens\[(\d)\.\.\]", r"shim_tail(&tokens, \1)"),
           ("R33", r"tokens\[(\d)\]\.0 == \"IN\"", r'shim_string_is(&tokens[\1].0, "IN")'),
           ("R33", r"tokens\[0\]\.0 != \"(\$[A-Z]+)\"", r'!shim_string_is(&tokens[0].0, "\1")'),
           ("R33", r"tokens\[(\d)\]\.0\.chars\(\)\.all\(\|c\| c\.is_ascii_digit\(\)\)", r"shim_all_digits(&tokens[\1].0)"),
